@@ -354,6 +354,14 @@ pub mod arbitrary_precision_option {
         Option::<serde_json::Number>::deserialize(deserializer)?
                                      .map(|num| num.as_str().parse().map_err(serde::de::Error::custom))
                                      .transpose()
+                                     .and_then(|opt_n: Option<BigDecimal>| match opt_n {
+                                         // same exponent limit as the non-optional adapter
+                                         Some(ref n) if n.scale.abs() > SERDE_SCALE_LIMIT && SERDE_SCALE_LIMIT > 0 => {
+                                             let msg = format!("Calculated exponent '{}' out of bounds", -n.scale);
+                                             Err(serde::de::Error::custom(msg))
+                                         }
+                                         _ => Ok(opt_n),
+                                     })
     }
 
     pub fn serialize<S>(value: &Option<BigDecimal>, serializer: S) -> Result<S::Ok, S::Error>
